@@ -806,6 +806,44 @@ fn run(name: &str, j: &J) -> Result<bool, String> {
             } }
             Ok(true)
         }
+        // C03: every Gaussian noise the rewritten query applies must be matched by a mechanism of the returned event, and a
+        // thresholded GROUP BY by an (epsilon, delta) entry (a necessary condition of "privacy loss never under-reported")
+        "c03_case" | "c03_search" => {
+            use qrlew::{hierarchy::Hierarchy, expr::Identifier, sql::parse, differential_privacy::{DpParameters, DpEvent}};
+            use std::sync::Arc;
+            fn flat(e: &DpEvent, out: &mut Vec<DpEvent>) { match e { DpEvent::NoOp => {}, DpEvent::Composed { events } => { for x in events { flat(x, out); } }, other => out.push(other.clone()) } }
+            let t: Relation = Relation::table().name("t").schema(vec![("id", DataType::integer_interval(0, 100)), ("k", DataType::integer()), ("g", DataType::integer_values([1, 2, 3])), ("x", DataType::float_interval(0., 10.)), ("y", DataType::float_interval(-5., 5.))].into_iter().collect::<Schema>()).size(1000).build();
+            let relations: Hierarchy<Arc<Relation>> = vec![t].iter().map(|t| (Identifier::from(t.name()), Arc::new(t.clone()))).collect();
+            let queries = [
+                "SELECT sum(x) AS s FROM t", "SELECT sum(x) AS s, count(y) AS c, avg(y) AS a FROM t", "SELECT g, sum(x) AS s FROM t GROUP BY g", "SELECT k, sum(x) AS s FROM t GROUP BY k",
+                "SELECT sum(x) AS a, sum(DISTINCT x) AS b, count(DISTINCT y) AS c FROM t", "SELECT var(x) AS v, stddev(y) AS d FROM t",
+                "WITH s AS (SELECT avg(x) AS ax FROM t) SELECT sum(y - ax) AS z FROM t CROSS JOIN s", "SELECT g, k, count(x) AS c FROM t GROUP BY g, k",
+            ];
+            let one = |q: &str| -> Option<String> {
+                let relation = Relation::try_from(parse(q).ok()?.with(&relations)).ok()?;
+                let rel2 = relations.clone();
+                let rw = match std::panic::catch_unwind(std::panic::AssertUnwindSafe(|| relation.rewrite_with_differential_privacy(&rel2, None, PrivacyUnit::from(vec![("t", vec![], "id")]), DpParameters::from_epsilon_delta(1., 1e-3)))) { Ok(Ok(r)) => r, _ => return None };
+                let sql = qrlew::ast::Query::from(rw.relation()).to_string();
+                let noises = sql.matches("(LN(RANDOM())").count();
+                let thresholded = sql.contains("_COUNT_DISTINCT_PE_ID_") || sql.contains("_COUNT_DISTINCT_PID_");
+                let mut ev = vec![]; flat(rw.dp_event(), &mut ev);
+                let gaussians = ev.iter().filter(|e| matches!(e, DpEvent::Gaussian { .. })).count();
+                let eds = ev.iter().filter(|e| matches!(e, DpEvent::EpsilonDelta { .. })).count();
+                // the thresholding count itself is noised: one of the noise terms belongs to the (epsilon, delta) entry
+                let need = noises.saturating_sub(if thresholded { 1 } else { 0 });
+                if gaussians < need { return Some(format!("`{}`: {} Gaussian noise terms in the rewritten query ({} for thresholding), {} Gaussian mechanisms in the event {}", q, noises, if thresholded { 1 } else { 0 }, gaussians, rw.dp_event())); }
+                if thresholded && eds == 0 { return Some(format!("`{}`: grouping keys are released by tau-thresholding but the event has no (epsilon, delta) entry: {}", q, rw.dp_event())); }
+                None
+            };
+            std::panic::set_hook(Box::new(|_| {}));
+            if name == "c03_case" { let r = one(j["query"].as_str().unwrap()); if let Some(m) = &r { println!("  {}", m); } return Ok(r.is_none()); }
+            for q in queries {
+                // a query the front end cannot build at all (panic or Err) says nothing about accounting
+                let r = std::panic::catch_unwind(std::panic::AssertUnwindSafe(|| one(q))).unwrap_or(None);
+                if let Some(m) = r { println!("  {}", m); println!("QX-WITNESS {}", serde_json::json!({"query": q})); return Ok(false); }
+            }
+            Ok(true)
+        }
         _ => Err(format!("unknown replay `{}`", name)),
     }
 }
